@@ -1,7 +1,7 @@
 #!/bin/bash
 # usage: tools/heldout_run.sh [glob]   -- runs every quick check on a scratch copy for each heldout patch
 set -u
-for P in /verif/heldout/${1:-t_*}.diff; do
+for P in /verif/${HELDOUT_DIR:-heldout}/${1:-t_*}.diff; do
   T=$(mktemp -d /dev/shm/sa_ref.XXXXXX)
   cp -r /repo/norminette "$T/norminette"; find "$T" -name __pycache__ -prune -exec rm -rf {} +
   if ! (cd "$T" && patch -s -p1 < "$P"); then echo "PATCH-FAILED $P"; rm -rf "$T"; continue; fi
